@@ -203,7 +203,47 @@ def run_long(period, P, n, body, res):
     return []
 
 
-PAIR_VARIANTS = ["nothing", "free-again", "exit-again", "wait-on-released", "garbage-collect", "release-after-second-created", "overlapping-with-blocks"]
+PAIR_VARIANTS = ["nothing", "free-again", "exit-again", "wait-on-released", "garbage-collect", "release-after-second-created", "overlapping-with-blocks", "free-while-waiting"]
+
+
+def run_free_while_waiting(period, P, how, res):
+    """free() / leaving the with-block from another thread while wait() is blocked: the waiter must come back at once
+    (the clock does not move) and the notifier must be released."""
+    import hal.simulation as hs
+    import wpilib
+    from robotpy_ext.misc.precise_delay import NotifierDelay
+
+    now = wpilib.RobotController.getFPGATime
+    hs.stepTimingAsync(7)
+    n0 = hs.getNumNotifiers()
+    rig = Rig()
+    d = NotifierDelay(period)
+    rig.delay = d
+    try:
+        hs.stepTimingAsync(P // 3)
+        t = now()
+        rig.cmd.put(("wait",))
+        ev = rig.get(10)
+        if ev[0] != "enter":
+            return [("harness", f"unexpected event {ev}")]
+        time.sleep(0.01)  # let the waiter reach the HAL
+        d.free() if how == "free" else d.__exit__(None, None, None)
+        ev = rig.get(PATIENCE)
+        if ev[0] != "ret":
+            return [("wait-never-returns:free-while-waiting", f"a wait() that was blocked when {how} was called from another thread -> {ev}")]
+        if now() != t:
+            return [("harness", "clock moved")]
+        if hs.getNumNotifiers() != n0:
+            return [("not-released:free-while-waiting", f"getNumNotifiers {hs.getNumNotifiers()} after release, {n0} before creation")]
+    finally:
+        rig.cmd.put(("stop",))
+        try:
+            d._expiry_time = 0  # lets a spinning waiter of a broken implementation end
+            d.free()
+        except Exception:
+            pass
+        rig.th.join(2)
+    return []
 
 
 def run_overlap(period, P, inner_first, res):
@@ -346,7 +386,12 @@ def work_extra(item):
             for rel in ("free", "with"):
                 res.executions += 1
                 res.checks += 4
-                found = run_overlap(period, P, rel == "with", res) if variant == "overlapping-with-blocks" else run_pair(period, P, variant, rel, res)
+                if variant == "overlapping-with-blocks":
+                    found = run_overlap(period, P, rel == "with", res)
+                elif variant == "free-while-waiting":
+                    found = run_free_while_waiting(period, P, rel, res)
+                else:
+                    found = run_pair(period, P, variant, rel, res)
                 for sig, msg in found:
                     if sig == "harness":
                         raise core.HarnessError(msg)
